@@ -6,6 +6,7 @@ import (
 
 	"verif/engine/explore"
 	"verif/engine/harness"
+	"verif/engine/memnet"
 	"verif/engine/pgproto"
 	"verif/engine/script"
 )
@@ -29,7 +30,7 @@ func init() {
 			a, b, c := c05Depth(tier)
 			return map[string]any{"single_statement_ops": a, "two_statement_ops": b, "three_statement_ops": c}
 		},
-		RequiredOutcomes: []string{"ok", "stmt-error", "parser-error", "zero-statements", "blank"},
+		RequiredOutcomes: []string{"ok", "stmt-error", "parser-error", "zero-statements", "blank", "copy-cycle"},
 	})
 }
 
@@ -117,7 +118,99 @@ func c05Programs(ops []string, maxLen int, ncols int, f func(prog string, size i
 	})
 }
 
+// c05RunCopy: a simple Query whose statement starts COPY-in. Whatever the client sends while the copy
+// is active, the cycle carries at most one ErrorResponse and ends with exactly one ReadyForQuery, and
+// the next Query is answered with its own cycle.
+func c05RunCopy(policy string, msgs []cletter) explore.Result {
+	var res explore.Result
+	res.Outcome = "copy-cycle"
+	rec := &script.Rec{Extra: copyHandler}
+	one, err := harness.StartOne(rec.ParseFn())
+	if err != nil {
+		res.Engine = err.Error()
+		return res
+	}
+	rec.Conn = one.C
+	defer one.Stop()
+	one.Step(pgproto.Startup("user", "u"))
+	prog := "1:copyt:" + policy
+	var all []byte
+	out, _ := one.Step(pgproto.Query(prog))
+	all = append(all, out...)
+	var names []string
+	for _, m := range msgs {
+		names = append(names, m.Name)
+		out, st := one.Step(m.Bytes)
+		all = append(all, out...)
+		if kk := harnessKinds(out); strings.Count(kk, "Z") > 1 || (m.Kind != "query" && strings.Count(kk, "E") > 1) {
+			res.Fail("copy-cycle", fmt.Sprintf("%s: %s was answered %q: one client message ends at most one cycle (a second ErrorResponse / ReadyForQuery is stale and shifts every later reply)", prog, m.Name, kk))
+		}
+		if st != memnet.Parked {
+			break
+		}
+	}
+	out, _ = one.Step(pgproto.CopyDone()) // ends the copy if it is still active, ignored otherwise
+	all = append(all, out...)
+	res.Key = fmt.Sprint("copy", policy, names)
+	k := harnessKinds(all)
+	if strings.HasSuffix(k, "!") {
+		res.Fail("reply-grammar", fmt.Sprintf("%s then %v: %q", prog, names, k))
+		return res
+	}
+	// the Query cycle: T G ... exactly one Z overall (Sync letters inside the copy are invisible; a Sync after it adds its own Z)
+	syncsAfter := 0
+	ended := false
+	for _, m := range msgs {
+		if ended && m.Kind == "sync" {
+			syncsAfter++
+		}
+		if m.Kind == "done" || m.Kind == "fail" || m.Kind == "query" || m.Kind == "unknown" || m.Kind == "oversized" {
+			ended = true
+		}
+	}
+	_ = syncsAfter
+	if !strings.HasPrefix(k, "TG") {
+		res.Fail("copy-cycle", fmt.Sprintf("%s: the cycle does not start with RowDescription + CopyInResponse: %q", prog, k))
+		return res
+	}
+	cycle := k[2:]
+	if i := strings.IndexByte(cycle, 'Z'); i < 0 {
+		res.Fail("ready-missing", fmt.Sprintf("%s then %v: no ReadyForQuery ends the cycle: %q", prog, names, k))
+		return res
+	} else {
+		first := cycle[:i+1]
+		if strings.Count(first, "E") > 1 || (first != "CZ" && first != "EZ" && first != "Z") {
+			res.Fail("copy-cycle", fmt.Sprintf("%s then %v: the cycle is %q (expected CommandComplete or a single ErrorResponse, then ReadyForQuery); whole reply %q", prog, names, first, k))
+		}
+	}
+	// a following query gets exactly its own cycle
+	out, _ = one.Step(pgproto.Query(progRows))
+	if kk := harnessKinds(out); kk != "TDCZ" && one.C.IsClosed() == false {
+		res.Fail("follow-up", fmt.Sprintf("%s then %v: the next query was answered %q (a stale ErrorResponse / ReadyForQuery shifts every later reply)", prog, names, kk))
+	}
+	res.Trans = []string{fmt.Sprintf("stmt0/copying|%s|stmt0/done", policy)}
+	return res
+}
+
 func c05Enumerate(tier string, emit explore.Emit) {
+	{
+		letters := c13Letters()
+		for _, policy := range []string{"drain", "take1", "fail1"} {
+			policy := policy
+			forShapes(len(letters), 2, func(sh []int) {
+				msgs := make([]cletter, len(sh))
+				for i, s := range sh {
+					msgs[i] = letters[s]
+					if letters[s].Kind == "terminate" {
+						return // the connection ends: nothing to observe about the cycle
+					}
+				}
+				emit(explore.Case{Family: "copy-cycle", Size: 30 + len(msgs),
+					Desc: func() any { return map[string]any{"statement": "COPY-in, policy " + policy, "client_sends": c13Names(msgs)} },
+					Run:  func() explore.Result { return c05RunCopy(policy, msgs) }})
+			})
+		}
+	}
 	d1, d2, d3 := c05Depth(tier)
 	add := func(q string, size int) {
 		for _, second := range []bool{false, true} {
